@@ -59,6 +59,7 @@ def main(pid, runner, argv):
     ctx.replay_path = a.replay
     t0 = time.time()
     os.makedirs(REPLAY, exist_ok=True)
+    replay_dir = REPLAY
     evfile = os.path.join(EVID, pid + ".json")
     alt = os.environ.get("VERIF_REPO")
     import re as _re
@@ -70,6 +71,8 @@ def main(pid, runner, argv):
         # mutation / seed runs against another tree must not overwrite the evidence of the real tree
         os.makedirs(os.path.join(VERIF, ".build", "evidence-other-tree"), exist_ok=True)
         evfile = os.path.join(VERIF, ".build", "evidence-other-tree", pid + ".json")
+        replay_dir = os.path.join(VERIF, ".build", "evidence-other-tree", "replay")
+        os.makedirs(replay_dir, exist_ok=True)
     failure = None
     try:
         runner(ctx)
@@ -105,7 +108,7 @@ def main(pid, runner, argv):
                   (pid, known[k]["what"], v["key"], v["count"]), flush=True)
             continue
         nviol += 1
-        rp = os.path.join(REPLAY, "%s-%s.json" % (pid, "".join(c if c.isalnum() else "_" for c in v["key"])[:80]))
+        rp = os.path.join(replay_dir, "%s-%s.json" % (pid, "".join(c if c.isalnum() else "_" for c in v["key"])[:80]))
         with open(rp, "w") as f:
             json.dump({"property": pid, "key": v["key"], "what": v["what"], "tier": ctx.tier,
                        "seed": seed, "replay": v["replay"]}, f, indent=1)
